@@ -92,6 +92,7 @@ fn main() {
     let mut hostile_ok = 0u64;
     let mut hostile_err = 0u64;
     let mut samples: Vec<Value> = vec![];
+    let mut probes = 0u64;
     let mut shapes_distinct: BTreeSet<String> = BTreeSet::new();
     let current: BTreeSet<&str> = types.iter().map(|t| t.path).collect();
     for (i, t) in types.iter().enumerate() {
@@ -134,6 +135,91 @@ fn main() {
                         }
                     }
                     shapes_distinct.insert(format!("{}|{k}|{s:?}", t.path));
+                }
+            }
+        }
+        // value-level probes against the pinned definition (which field sits under which number; map entry
+        // layout; string vs bytes)
+        if !pinned.is_null() {
+            if let Some(pm) = pinned.get("messages").and_then(|m| m.get(t.path)) {
+                for f in pm.get("fields").and_then(|x| x.as_array()).cloned().unwrap_or_default() {
+                    let kind = f.get("kind").and_then(|x| x.as_str()).unwrap_or("");
+                    let label = f.get("label").and_then(|x| x.as_str()).unwrap_or("singular");
+                    let Some(tag) = f.get("tag").and_then(|x| x.as_u64()).map(|x| x as u32) else { continue };
+                    let name = f.get("name").and_then(|x| x.as_str()).unwrap_or("").trim_start_matches("r#").to_string();
+                    let ftype = f.get("type").and_then(|x| x.as_str()).unwrap_or("");
+                    if ftype.contains("tendermint") || (ftype.contains("::prost_types::") && !["Any", "Timestamp", "Duration"].iter().any(|k| ftype.ends_with(&format!("::prost_types::{k}>")) || ftype.ends_with(&format!("::prost_types::{k}")))) {
+                        continue;
+                    }
+                    let occ = field_payloads(&res.named_bytes, tag);
+                    let mut bad: Option<String> = None;
+                    match kind {
+                        "string" | "bytes" => {
+                            let want = if label == "repeated" { 2 } else { 1 };
+                            if occ.len() != want || occ.iter().any(|o| o.0 != 2 || o.2 != name.as_bytes()) {
+                                bad = Some(format!("field number {tag} should carry the {kind} field '{name}' but the name-valued instance has {:?} there", occ.iter().map(|o| String::from_utf8_lossy(&o.2).to_string()).collect::<Vec<_>>()));
+                            } else if label != "repeated" && !occ.is_empty() {
+                                // string must validate UTF-8, bytes must not
+                                let (_, _, _, off, len) = occ[0].clone();
+                                let mut patched = res.named_bytes.clone();
+                                for b in patched[off..off + len].iter_mut() {
+                                    *b = 0xff;
+                                }
+                                match ((t.recode)(&patched), kind) {
+                                    (Ok(_), "string") => bad = Some(format!("string field '{name}' (number {tag}) accepts a payload that is not UTF-8")),
+                                    (Err(e), "bytes") => bad = Some(format!("bytes field '{name}' (number {tag}) rejects an arbitrary payload: {e}")),
+                                    (Ok(b2), "bytes") if b2 != patched => bad = Some(format!("bytes field '{name}' (number {tag}) does not re-encode an arbitrary payload identically")),
+                                    _ => {}
+                                }
+                            }
+                        }
+                        "uint64" | "int64" | "uint32" | "int32" | "enumeration" => {
+                            let want_v = name_value(&name);
+                            if label == "repeated" {
+                                let packed = f.get("packed").and_then(|x| x.as_bool()) != Some(false);
+                                let ok = if packed {
+                                    occ.len() == 1 && occ[0].0 == 2 && {
+                                        let mut enc = vec![];
+                                        for _ in 0..2 {
+                                            let mut v = want_v;
+                                            loop {
+                                                let b = (v & 0x7f) as u8;
+                                                v >>= 7;
+                                                if v == 0 { enc.push(b); break; }
+                                                enc.push(b | 0x80);
+                                            }
+                                        }
+                                        occ[0].2 == enc
+                                    }
+                                } else {
+                                    occ.len() == 2 && occ.iter().all(|o| o.0 == 0 && o.1 == want_v)
+                                };
+                                if !ok {
+                                    bad = Some(format!("field number {tag} should carry the repeated {kind} field '{name}' (name-derived value {want_v}); found {:?}", occ.iter().map(|o| (o.0, o.1, o.2.clone())).collect::<Vec<_>>()));
+                                }
+                            } else if occ.len() != 1 || occ[0].0 != 0 || occ[0].1 != want_v {
+                                bad = Some(format!("field number {tag} should carry the {kind} field '{name}' (name-derived value {want_v}); found {:?}", occ.iter().map(|o| (o.0, o.1)).collect::<Vec<_>>()));
+                            }
+                        }
+                        "map" => {
+                            let kv: Vec<&str> = f.get("map").and_then(|x| x.as_str()).unwrap_or(",").split(',').collect();
+                            let occ = field_payloads(&res.full_bytes, tag);
+                            if let Some(first) = occ.first() {
+                                let inner = wire_fields(&first.2).unwrap_or_default();
+                                let want = vec![(1u32, wt(kv[0])), (2u32, wt(kv.get(1).copied().unwrap_or("")))];
+                                if inner != want {
+                                    bad = Some(format!("map field '{name}' (number {tag}): entry encodes as {inner:?}, its definition map<{}> gives {want:?}", kv.join(", ")));
+                                }
+                            } else {
+                                bad = Some(format!("map field '{name}' (number {tag}) absent from the fully populated instance"));
+                            }
+                        }
+                        _ => {}
+                    }
+                    if let Some(b) = bad {
+                        violations.push(json!({"type": t.path, "what": format!("{}: {b}", t.path), "sig": format!("{}: field {name}", t.path)}));
+                    }
+                    probes += 1;
                 }
             }
         }
@@ -216,6 +302,7 @@ fn main() {
     }
     let doc = json!({
         "enumerations_checked": enums_checked,
+        "field_probes": probes,
         "types_checked": checked, "evals": evals, "types_diffed": diffed, "diff_evals": diff_evals, "urls_checked": urls_checked,
         "hostile_decoded": hostile_ok, "hostile_rejected": hostile_err, "unpinned": unpinned, "missing": missing,
         "violations": violations, "samples": samples, "distinct_shapes": shapes_distinct.len(),
